@@ -4,9 +4,10 @@
    classical writes, reservations and keep deliveries) of any applications on any
    nodes; `reachable` closes the initial state under `step`, each keep delivery
    obeying the environment contract `fresh_delivery` (the physical qubit it names
-   was reserved from this executor's pool and not delivered yet). *)
+   was reserved from this executor's pool and not delivered yet, or is not marked in
+   use at all at the moment of delivery). *)
 From Coq Require Import ZArith List Bool.
-From NQ Require Import Exec.Qmem Proofs.QmemProofs.
+From NQ Require Import Exec.Qmem Proofs.QmemProofs Exec.QmemSched Proofs.QmemSchedProofs.
 Import ListNotations.
 Open Scope Z_scope.
 
@@ -105,6 +106,50 @@ Theorem C13_no_internal_fault :
   snd (step s o) <> Fault EUsedMissing /\ snd (step s o) <> Fault EFuel.
 Proof. exact no_internal_fault. Qed.
 
+(* subroutines of several applications as interleaved, suspendable programs
+   (Exec/QmemSched.v): under ANY interleaving of starts, resumptions and atomic events the
+   invariant holds, an event changes only the application owning the subroutine it starts or
+   resumes, and a suspended subroutine keeps its owner -- with subroutine ids taken from the
+   counter; with ids taken from the size of the table a suspended subroutine is taken over *)
+Theorem C13_sched_reachable : forall ss, sreach ss -> Inv (ss_st ss) /\ table_ok ss.
+Proof. exact sched_reachable. Qed.
+
+Theorem C13_sched_isolation :
+  forall ss e k', table_ok ss -> ev_wf e -> ev_owner ss e <> Some k' ->
+  app_of (ss_st (sched_step by_counter ss e)) k' = app_of (ss_st ss) k'.
+Proof. exact sched_isolation. Qed.
+
+Theorem C13_sched_owner_stable :
+  forall ss e sid sb, table_ok ss -> aget Z.eqb sid (ss_table ss) = Some sb ->
+  match aget Z.eqb sid (ss_table (sched_step by_counter ss e)) with
+  | Some sb' => sb_app sb' = sb_app sb
+  | None => True
+  end.
+Proof. exact owner_stable. Qed.
+
+Theorem C13_sched_id_reuse_refuted :
+  let ss := sched_run by_table_size sched_init takeover in
+  let e := Start (0, 2) [SetReg 0 2 r1 5; SetReg 0 2 r1 6] in
+  ev_wf e /\
+  option_map sb_app (aget Z.eqb 1 (ss_table ss)) = Some (0, 1) /\
+  option_map sb_app (aget Z.eqb 1 (ss_table (sched_step by_table_size ss e))) = Some (0, 2) /\
+  aget pair_eqb r1 (match app_of (ss_st (sched_step by_table_size (sched_step by_table_size ss e) (Resume 1))) (0, 2)
+                    with Some a => a_regs a | None => [] end) = Some 6.
+Proof. exact owner_stable_needs_counter. Qed.
+
+(* non-vacuity of the interleaving theorems: three applications, three suspended
+   subroutines, resumed out of order; reachable, and every application ends with its own value *)
+Example C13_sched_nonvacuous :
+  let es := [Atomic (Init 0 0 1); Atomic (Init 0 1 1); Atomic (Init 0 2 1);
+             Start (0, 0) [SetReg 0 0 r1 1; QAlloc 0 0 0; SetReg 0 0 r1 2];
+             Start (0, 1) [SetReg 0 1 r1 3; QAlloc 0 1 0; SetReg 0 1 r1 4];
+             Resume 0; Start (0, 2) [QAlloc 0 2 0; SetReg 0 2 r1 6]; Resume 1; Resume 0; Resume 2; Resume 1] in
+  let ss := sched_run by_counter sched_init es in
+  map (fun '(k, a) => (k, a_um a, aget pair_eqb r1 (a_regs a))) (apps (ss_st ss)) =
+    [((0, 1), [Some 2], Some 4); ((0, 2), [Some 1], Some 6); ((0, 0), [Some 0], Some 2)] /\
+  ss_table ss = [] /\ ss_next ss = 3.
+Proof. vm_compute. repeat split; reflexivity. Qed.
+
 (* the environment contract is needed: the unrestricted statement is false of the
    faithful model -- a keep response naming a mapped physical qubit is accepted and
    double-maps it (replayed on the implementation by the check, stated assumption) *)
@@ -135,7 +180,9 @@ Fixpoint all_done_fresh (s : state) (h : list op) : bool :=
   | o :: h' =>
       match snd (step s o) with Done => true | _ => false end &&
       match o with
-      | Keep nd _ _ _ _ info => match nth_error info 2 with Some p => mem2 (nd, p) (resv s) | None => false end
+      | Keep nd _ _ _ _ info => match nth_error info 2 with
+                                | Some p => mem2 (nd, p) (resv s) || negb (mem2 (nd, p) (used s))
+                                | None => false end
       | _ => true
       end && all_done_fresh (fst (step s o)) h'
   end.
@@ -162,5 +209,9 @@ Print Assumptions C13_register_ok.
 Print Assumptions C13_pool_total.
 Print Assumptions C13_pool_least.
 Print Assumptions C13_no_internal_fault.
+Print Assumptions C13_sched_reachable.
+Print Assumptions C13_sched_isolation.
+Print Assumptions C13_sched_owner_stable.
+Print Assumptions C13_sched_id_reuse_refuted.
 Print Assumptions C13_inv_without_fresh_refuted.
 Print Assumptions C13_unrestricted_refuted.
